@@ -71,8 +71,8 @@ let parse_action (a : string) : Model.action =
               | [st; body; d] -> Model.FRespond (n_of_string st, unhex body, d = "1")
               | _ -> failwith "R")
     | 'D' | 'P' -> Model.FDrop
-    | 'W' | 'X' -> Model.FWriter (unhex rest)
-    | 'Z' -> Model.FWriter []
+    | 'W' | 'X' | 'Y' -> Model.FWriter (unhex rest)
+    | 'Z' | 'Q' -> Model.FWriter []
     | 'U' -> Model.FUpgrade (unhex rest)
     | _ -> failwith "finish" in
   { Model.a_reads = reads; Model.a_finish = fin }
